@@ -557,7 +557,7 @@ func genStage(r *kit.Rand, present int, valid bool) stageAST {
 	if valid {
 		s.conc = maybe(r, present, r.Range(1, 20))
 	}
-	s.jitter = maybe(r, present, kit.Pick(r, 0.0, 0.0, 5.0, 20.5))
+	s.jitter = maybe(r, present, kit.Pick(r, 0.0, 0.0, 5.0, 20.5, 50.0))
 	s.volume = maybe(r, present, kit.Pick(r, 100.0, 86400.0, 0.0))
 	s.dur = maybe(r, present, kit.Pick(r, r.Range(1, 50)*100_000_000, r.Range(0, 3)*1_000_000_000, 0))
 	s.freq = maybe(r, present, kit.Pick(r, int64(100_000_000), 1_000_000_000, 10_000_000, 0, -1_000_000))
@@ -658,6 +658,28 @@ func TestC14Config(t *testing.T) {
 		tags := []string{"config"}
 		if c.start != nil && len(c.stages) >= 2 {
 			tags = append(tags, "nt")
+		}
+		if !crashed && err == nil {
+			// the jitter in force, seen from outside: 24 evaluations of every stage's rate function
+			// at one instant either all agree (0) or vary (1); users stages have no rate function
+			obs := make([]string, len(rs.Stages))
+			for k, s := range rs.Stages {
+				obs[k] = "0"
+				if s.UsersConcurrency != 0 || s.Rate == nil {
+					continue
+				}
+				at := time.Unix(0, now)
+				var first int
+				_, _ = kit.Guard(func() {
+					first = s.Rate(at)
+					for q := 0; q < 23; q++ {
+						if s.Rate(at) != first {
+							obs[k] = "1"
+						}
+					}
+				})
+			}
+			o.Case("config_jitter_ok", []string{c.enc(), kit.I(now), kit.List(obs...)}, "T", "config", "jitter")
 		}
 		o.Count("config-outcome", strings.SplitN(out, " ", 2)[0])
 		o.Count("config-stages", kit.I(len(c.stages)))
